@@ -28,6 +28,8 @@ Fixpoint le_bytes (k : nat) (n : N) : bytes :=
 Fixpoint le_val (b : bytes) : N :=
   match b with [] => 0 | x :: t => x + 256 * le_val t end.
 
+Definition nlen {A} (l : list A) : N := N.of_nat (length l).
+
 Definition take (n : nat) (l : bytes) : option (bytes * bytes) :=
   if (length l <? n)%nat then None else Some (firstn n l, skipn n l).
 
@@ -52,7 +54,6 @@ Inductive op :=
 | ODup | OHash160 | OEqual | OEqualVerify | OCheckSig | ODrop | OIf | OElse | OEndIf | OCLTV
 | OOther (b : N).                (* every other opcode: outside the modelled fragment *)
 
-Definition nlen {A} (l : list A) : N := N.of_nat (length l).
 
 Definition ser_op (o : op) : bytes :=
   match o with
@@ -90,7 +91,10 @@ Definition len_then (k : bytes -> option (list op)) (e : penc) (w : nat) (t : by
   : option (list op) :=
   match take w t with
   | None => None
-  | Some (l, t') => push_rest k e (N.to_nat (le_val l)) t'
+  | Some (l, t') =>
+      (* the length is compared as a binary number first: a declared length of up to 2^32-1 must
+         not be turned into a unary number (same result: [take] fails on a short tail) *)
+      if nlen t' <? le_val l then None else push_rest k e (N.to_nat (le_val l)) t'
   end.
 
 (* txscript.parseScript: fails only on a truncated push *)
